@@ -215,7 +215,7 @@ def make_programs(ctx):
     ]
     assert len(corpus) == N_CORPUS
     progs = [list(p) for p in corpus]
-    n_rand = 85 if ctx.tier == "quick" else 450
+    n_rand = 85 if ctx.tier == "quick" else 350
     maxlen = 4 if ctx.tier == "quick" else 7
     for i in range(n_rand):
         cols = dict(cols0)
